@@ -1543,13 +1543,25 @@ def _str_to_int(it, a, k, n):
     return VInt(strlib.INT_VAL(a[0].z, z3.IntVal(10)))
 
 
+def _idna_ok(it, a, k, n):
+    """spec helper: str.encode('idna') succeeds"""
+    from . import strlib
+    return VBool(strlib.ENC_OK(a[0].z, z3.StringVal("idna")))
+
+
+def _idna(it, a, k, n):
+    """spec helper: s.encode('idna').decode('ascii') (abstract, ASCII-valued)"""
+    from . import strlib
+    return VStr(strlib.ENC(a[0].z, z3.StringVal("idna:strict")), "str")
+
+
 def _int_max_digits(it, a, k, n):
     from . import strlib
     return VInt(strlib.MAX_DIGITS)
 
 
 _BUILTINS = {
-    "re_in": _re_in, "str_to_int": _str_to_int, "int_max_digits": _int_max_digits,
+    "re_in": _re_in, "str_to_int": _str_to_int, "int_max_digits": _int_max_digits, "idna_ok": _idna_ok, "idna": _idna,
     "len": _len, "min": _minmax(True), "max": _minmax(False), "isinstance": _isinstance,
     "hasattr": _hasattr, "getattr": _getattr, "int": _int, "str": _str, "bool": _bool, "float": _float,
     "bytes": _bytes, "bytearray": _bytearray, "list": _list, "tuple": _tuple, "dict": _dict, "set": _set,
